@@ -257,7 +257,7 @@ func Harness_C07_StalledCalleeCalls_4() { vC07StalledCalleeCalls(4) }
 // and departures: under every schedule within the delay bound no cycle of
 // waiting workers forms (engine-level deadlock detection) and every request
 // is answered.
-func vC07ConcurrentMeta(budget int) {
+func vC07ConcurrentMeta(budget int, metas []wamp.URI, ops []int) {
 	r := vNewRouter(&Config{RealmConfigs: []*RealmConfig{{URI: "realm1", AnonymousAuth: true, EnableMetaKill: true}}})
 	a := vAttach(r, "realm1", nil, 64)
 	b := vAttach(r, "realm1", nil, 64)
@@ -272,8 +272,8 @@ func vC07ConcurrentMeta(budget int) {
 	rg, _ := vFindMsg[*wamp.Registered](bm)
 	sd, _ := vFindMsg[*wamp.Subscribed](bm)
 	vAssert("b-setup", rg != nil && sd != nil)
-	metaProc := []wamp.URI{wamp.MetaProcSessionCount, wamp.MetaProcRegList}[vChoice("meta", 2)]
-	bkind := vChoice("b.op", 5)
+	metaProc := metas[vChoice("meta", len(metas))]
+	bkind := ops[vChoice("b.op", len(ops))]
 	vSetPreempt(budget)
 	ad, bd := make(chan struct{}), make(chan struct{})
 	go func() {
@@ -331,6 +331,13 @@ func vC07ConcurrentMeta(budget int) {
 	vCover("concurrent-meta-done")
 }
 
-func Harness_C07_ConcurrentMeta_1() { vC07ConcurrentMeta(1) }
-func Harness_C07_ConcurrentMeta_2() { vC07ConcurrentMeta(2) }
-func Harness_C07_ConcurrentMeta_3() { vC07ConcurrentMeta(3) }
+var vC07Metas = []wamp.URI{wamp.MetaProcSessionCount, wamp.MetaProcRegList}
+
+func Harness_C07_ConcurrentMeta_1() { vC07ConcurrentMeta(1, vC07Metas, []int{0, 1, 2, 3, 4}) }
+func Harness_C07_ConcurrentMeta_2() { vC07ConcurrentMeta(2, vC07Metas, []int{0, 1, 2, 3, 4}) }
+func Harness_C07_ConcurrentMeta_3() { vC07ConcurrentMeta(3, vC07Metas, []int{0, 1, 2, 3, 4}) }
+
+// quick tier: two deviations, the requests that make the dealer announce meta events
+func Harness_C07_ConcurrentMetaDealer_2() {
+	vC07ConcurrentMeta(2, []wamp.URI{wamp.MetaProcSessionCount}, []int{0, 3})
+}
